@@ -75,6 +75,8 @@ type object struct {
 	label int
 	kind  string
 	hash  uint64
+	pos   uint64 // waitgroup: chain of increments
+	neg   uint64 // waitgroup: commutative sum of decrements
 	// model state
 	closed  bool
 	owner   *thread // mutex
@@ -954,9 +956,28 @@ func (x *exec) apply(tr trans) {
 				p.answer = 0
 			}
 		} else {
-			t.hash = mix(t.hash, uint64(o.kind), obj.hash, uint64(ans+7), strHash(o.label))
-			if write {
-				obj.hash = mix(obj.hash, uint64(t.id), t.hash)
+			// a receive from a closed, drained channel observes the close but changes nothing
+			if rc := o.ch; o.kind == opRecv && obj.closed && rc.IsValid() && !rc.IsNil() && rc.Len() == 0 {
+				write = false
+			}
+			if o.kind == opSelect && tr.tCase >= 0 && !o.cases[tr.tCase].send && obj.closed && o.cases[tr.tCase].ch.Len() == 0 {
+				write = false
+			}
+			if o.kind == opWGAdd {
+				// the caller does not observe the counter, and decrements commute with each other
+				// (increments are ordered against the decrements that precede them)
+				t.hash = mix(t.hash, uint64(o.kind), uint64(int64(o.delta)+77))
+				if o.delta < 0 {
+					obj.neg += mix(0x51, t.hash)
+				} else {
+					obj.pos = mix(obj.pos, t.hash, obj.neg)
+				}
+				obj.hash = mix(obj.pos, obj.neg)
+			} else {
+				t.hash = mix(t.hash, uint64(o.kind), obj.hash, uint64(ans+7), strHash(o.label))
+				if write {
+					obj.hash = mix(obj.hash, uint64(t.id), t.hash)
+				}
 			}
 			x.vcSync(t, o, obj, write)
 		}
@@ -1024,6 +1045,8 @@ func (x *exec) predictKey(tr trans) uint64 {
 			hs, hr := th, p.hash
 			th = mix(hs, uint64(o.kind), obj.hash, hr, uint64(ans+7))
 			ph = mix(hr, uint64(p.pend.kind), obj.hash, hs, uint64(tr.pCase+7))
+		} else if o.kind == opWGAdd {
+			th = mix(th, uint64(o.kind), uint64(int64(o.delta)+77))
 		} else {
 			th = mix(th, uint64(o.kind), obj.hash, uint64(ans+7), strHash(o.label))
 		}
